@@ -328,7 +328,11 @@ mod fen {
             let mut location_index: u8 = 0;
             for c in s.chars() {
                 match c {
-                    '1'..='8' => location_index += c.to_digit(10).ok_or(())? as u8,
+                    '1'..='8' => {
+                        location_index = location_index
+                            .checked_add(c.to_digit(10).ok_or(())? as u8)
+                            .ok_or(())?
+                    }
                     ' ' => break,
                     '/' => (),
                     _ => {
